@@ -586,4 +586,69 @@ example : (allOff (Geom.uniform [2] 1) : PSt Rat).flat = [1, 1] ∧
       [.setFlat [1, 1], .integrate [1, 2] 1 1, .setPhoton false, .readOut] = [(true, .image [1, 2])] := by
   refine ⟨by decide +kernel, by decide +kernel, by decide +kernel⟩
 
+/-! ### round 6: re-used wavefront objects, parameter maps on other grids -/
+
+/-- **Re-used wavefront objects** (driver ops `wcreate` / `wfield` / `wweights` / `wint` / `wread`): the caller keeps
+Wavefront objects, changes their electric field or the weights of their grid at any time and integrates the same
+object again.  What the detector observes is the value-level history `run` in which every integration sees
+`|E|²·weights` of what its wavefront holds **at the call** — so every theorem about `run` (`readout_is_sum`,
+`readout_pixel_index`, `readout_total`, …) holds for such histories; no power computed earlier survives an edit. -/
+theorem reused_wavefront_eq_value_history (g : Geom) (ops : List (WOp K)) (st : WSt K) :
+    wRun g st ops = (run g st.det (wValueOps st.wfs ops)).2 := by
+  induction ops generalizing st with
+  | nil => simp [wRun, wValueOps, run_nil]
+  | cons op ops ih =>
+    cases op with
+    | integrate j dt w => simp only [wRun, wStep, wValueOps, run_cons]; rw [ih]
+    | readOut => simp only [wRun, wStep, wValueOps, run_cons]; rw [ih]
+    | create re im wt => simp only [wRun, wStep, wValueOps]; rw [ih]
+    | setField j re im => simp only [wRun, wStep, wValueOps]; rw [ih]
+    | setWeights j wt => simp only [wRun, wStep, wValueOps]; rw [ih]
+
+/-- **Read-out = sum of the powers the re-used wavefronts had when they were integrated**: the images of a history
+with re-used, edited wavefront objects are the sums `Σ bin(|E_j|²·w_j)·dt·w` over the exposures, with `E_j`, `w_j` the
+contents at the time of the `j`-th call. -/
+theorem reused_wavefront_readout_is_sum (g : Geom) (ops : List (WOp K)) (wfs : List (Wf K)) :
+    images (wRun g { det := {}, wfs := wfs } ops) = (exposures g [] (wValueOps wfs ops)).map (sumCharges g) := by
+  rw [reused_wavefront_eq_value_history]
+  exact readout_is_sum g (wValueOps wfs ops)
+
+/-- the seeded shape: integrate, edit the same object in place, integrate again, read out — the image is the sum of
+the two binned powers, the second one of the **edited** contents -/
+theorem reintegrated_after_edit (g : Geom) (f : Wf K) (re im : List K) (dt₁ w₁ dt₂ w₂ : K)
+    (h₁ : f.power.length = g.ninput) (h₂ : ({ f with re := re, im := im } : Wf K).power.length = g.ninput) :
+    images (wRun g { det := {}, wfs := [f] } [.integrate 0 dt₁ w₁, .setField 0 re im, .integrate 0 dt₂ w₂, .readOut]) =
+      [sumCharges g [(f.power, dt₁, w₁), (({ f with re := re, im := im } : Wf K).power, dt₂, w₂)]] := by
+  rw [reused_wavefront_readout_is_sum]
+  simp [wValueOps, wfsStep, wfAt, exposures, h₁, h₂]
+
+example : ∃ (g : Geom) (f : Wf ℚ) (re im : List ℚ), f.power.length = g.ninput ∧
+    ({ f with re := re, im := im } : Wf ℚ).power.length = g.ninput :=
+  ⟨Geom.uniform [2] 1, ⟨[1, 2], [0, 1], [1, 1]⟩, [0, 0], [1, 1], by decide, by decide⟩
+
+/-- **Images of the noisy detector live on the detector grid, whatever grid the parameter maps live on** (driver ops
+`ntset` / `ntint` / `ntread`, compared with `image.grid` of the real `NoisyDetector`): flat field, dark current
+and read noise may be scalars, plain arrays or Fields on any grid object, set in the constructor or between any two
+operations — every image of every history carries the detector grid. -/
+theorem noisy_image_grid_is_detector_grid (ops : List NTOp) (st : NTSt)
+    (h : st.acc = none ∨ st.acc = some .detector) : ∀ t ∈ ntRun st ops, t = .detector := by
+  induction ops generalizing st with
+  | nil => simp [ntRun]
+  | cons op ops ih =>
+    cases op with
+    | integrate p =>
+      simp only [ntRun, ntStep]
+      apply ih
+      rcases h with h | h <;> simp [h, tagOp, relabel]
+    | readOut =>
+      simp only [ntRun, ntStep, tagOp, List.mem_cons]
+      rintro t (rfl | ht)
+      · rcases h with h | h <;> simp [h]
+      · exact ih _ (Or.inl rfl) t ht
+    | setDark m => simp only [ntRun, ntStep]; exact ih _ h
+    | setFlat m => simp only [ntRun, ntStep]; exact ih _ h
+    | setSigma m => simp only [ntRun, ntStep]; exact ih _ h
+
+example : (({} : NTSt).acc = none ∨ ({} : NTSt).acc = some .detector) := Or.inl rfl
+
 end HcipyVerif.Detector
